@@ -234,7 +234,7 @@ fn sig_ns(s: &str) -> Option<String> { let v: Vec<&str> = s.split('/').filter(|x
 fn sig_sub(s: &str) -> Option<String> { let v: Vec<&str> = s.split('/').filter(|x| !x.is_empty() && *x != "." && *x != "..").collect(); if v.is_empty() { None } else { Some(v.join("/")) } }
 
 pub fn suite_builder(ctx: &Ctx, thorough: bool) {
-    let strs: [&'static str; 8] = ["", "a", "A b", "x/y", "@?#%&=+", "é/../.", "/", "%2F"];
+    let strs: [&'static str; 9] = ["", "a", "A b", "x/y", "@?#%&=+", "é/../.", "/", "%2F", "a/.../.b"];
     let mut ops: Vec<Op> = vec![Op::NoQs, Op::NoNs, Op::NoVer, Op::NoSub];
     for s in strs { ops.push(Op::Ns(s)); ops.push(Op::Name(s)); ops.push(Op::Ver(s)); ops.push(Op::Sub(s)); }
     for t in ["t", "T+1", "bad type", ""] { ops.push(Op::Ty(t)); }
